@@ -158,6 +158,18 @@ _BIN = {
 }
 
 
+_FOREIGN: dict = {}
+
+
+def _foreign_var(name: str):
+    if name not in _FOREIGN:
+        import pulser
+
+        other = pulser.Sequence(pulser.Register({"f0": (0.0, 0.0)}), pulser.MockDevice)
+        _FOREIGN[name] = other.declare_variable(name, dtype=int)
+    return _FOREIGN[name]
+
+
 def is_expr(x: Any) -> bool:
     return isinstance(x, dict) and "e" in x
 
@@ -185,6 +197,8 @@ def ev(x: Any, env: Env) -> Any:
         return val.reshape(-1)[x["i"]].item() if x.get("i") is not None else val
     if k == "lit":
         return x["v"]
+    if k == "foreign":  # a variable declared in *another* sequence
+        return _foreign_var(x.get("name", "zz"))
     if k in _BIN:
         return _BIN[k](ev(x["l"], env), ev(x["r"], env))
     if k in _UN:
